@@ -232,6 +232,16 @@ def check(case: t.Any, ctx: Ctx) -> None:
                 ctx.fail('stream-ownership', 'closed-callers-stream', f"{ident}; the caller's StringIO was closed by write_{fmt}")
                 return
             text = buf.getvalue()
+            if isinstance(nd, (tg.Enum, tg.Sub)):
+                # ty= is optional: a value whose runtime type is T itself (an enum member, an instance of a scalar subclass) is
+                # written the same without it - as plain interchange data, which every emitter can represent
+                buf2 = io.StringIO()
+                (k, r) = outcome(lambda: writer(x, buf2, **opts))
+                if k != 'ok' or buf2.getvalue() != text:
+                    ctx.fail('io-roundtrip', f"write-without-ty:{type(r).__name__ if k != 'ok' else 'other-text'}",
+                             f"{ident}; write_{fmt}(x, stream) without ty= {'raised ' + type(r).__name__ + ': ' + str(r)[:150] if k != 'ok' else 'wrote ' + repr(buf2.getvalue()[:80])}; "
+                             f"with ty=T it wrote {text[:80]!r}")
+                    return
         elif sink in ('path', 'strpath'):
             target: t.Any = pathlib.Path(path) if sink == 'path' else path
             (k, r) = outcome(lambda: writer(x, target, ty=T, **opts))
@@ -385,4 +395,7 @@ def check(case: t.Any, ctx: Ctx) -> None:
 def suites(tier: str) -> t.List[Suite]:
     big = tier == 'thorough'
     leaves = 6 if big else 3
-    return [Suite('io', check, strategy=lambda: cases(gen.all_type_specs(leaves)), examples=6000 if big else 500, budget_s=480 if big else 40, render=render)]
+    # documents that are one scalar: enum members and instances of scalar subclasses at the root (written with and without ty=)
+    roots = st.sampled_from([('enum', n) for n in ('SE', 'IE', 'IE0', 'SE0', 'FE0', 'IntE', 'StrE', 'MixedE')] + [('sub', n) for n in ('int', 'str', 'float')])
+    return [Suite('io', check, strategy=lambda: cases(gen.all_type_specs(leaves)), examples=6000 if big else 500, budget_s=480 if big else 40, render=render),
+            Suite('scalar-documents', check, strategy=lambda: cases(roots), examples=600 if big else 60, budget_s=60 if big else 10, render=render)]
